@@ -163,6 +163,8 @@ def objects(c, e, text: str, rep: Report) -> None:
             rep.violation(f"{type(o).__name__} prints as {r!r}, expected {expect[:200]}", dict(c))
             continue
         if isinstance(o, sm.LocatedDifferential):
+            if any(f"n={k}" in text for k in (10 ** 6, 2 ** 40)):
+                continue        # evaluating the printed text would really differentiate x ** (2 ** 40)
             back = call(lambda: eval(expect, dict(NS)))
             if back[0] == "ok" and not (back[1] == o):
                 rep.violation("eval(repr(LocatedDifferential)) != object", dict(c))
